@@ -686,4 +686,668 @@ theorem rnb_sem (P : Params) : ∀ n s r, pureS n s = true → removeNullUnionBr
         | _ => simp [pureS, ha] at hp
     | _ => simp [removeNullUnionBranch] at hr
 
+/-! ### the fragment -/
+
+/-- constants a literal type can hold and JSON can spell -/
+def primConst : JsVal → Bool
+  | .str _ => true
+  | .bool _ => true
+  | .null => true
+  | .num c => c != "NaN"
+  | _ => false
+
+/-- property names that every object answers through its prototype (D51: out of the fragment) -/
+def protoNamedKey (k : String) : Bool := k == "__proto__" || objectProtoFns.contains k
+
+def nodupB : List String → Bool
+  | [] => true
+  | x :: xs => !xs.contains x && nodupB xs
+
+/-- **the structural fragment**: keyword types, literals and literal unions, arrays, tuples with rest, closed object types
+with required and optional properties (distinct names, none of them a member of Object.prototype), unions, optional
+wrappers, descriptions, and references to named types that do not reach themselves (`seen` is the chain of names being
+inlined, exactly as in the flat printer) -/
+def frag (env : Env) : Nat → List String → RT → Bool
+  | 0, _, _ => false
+  | n+1, seen, rt =>
+    match rt with
+    | .described _ t => frag env n seen t
+    | .typeof t => t == "string" || t == "number" || t == "boolean"
+    | .any => true
+    | .nullish _ => true
+    | .never => true
+    | .const v => primConst v || v.isNullish
+    | .consts vs => vs.all primConst
+    | .array t => frag env n seen t
+    | .tuple pre rest => pre.all (frag env n seen) && (match rest with | some r => frag env n seen r | none => true)
+    | .anyOf ts => ts.all (frag env n seen)
+    | .optional t => frag env n seen t
+    | .object props ix => ix.isEmpty && nodupB (props.map (·.1)) && props.all (fun p => !protoNamedKey p.1 && frag env n seen p.2)
+    | .ref name => !seen.contains name && (match env.lookup name with | some t => frag env n (name :: seen) t | none => false)
+    | _ => false
+
+/-- the validator answers `true`, or the model ran out of fuel: it neither rejects nor throws -/
+def Acc (r : Res Bool) : Prop := r = .ok true ∨ r = .nofuel
+
+theorem allShort_congr {α : Type} {f g : α → Res Bool} {l : List α} (h : ∀ x ∈ l, f x = g x) : allShort f l = allShort g l := by
+  induction l with
+  | nil => rfl
+  | cons x xs ih =>
+    simp only [allShort, h x List.mem_cons_self]
+    rw [ih (fun y hy => h y (List.mem_cons_of_mem _ hy))]
+
+theorem anyShort_congr {α : Type} {f g : α → Res Bool} {l : List α} (h : ∀ x ∈ l, f x = g x) : anyShort f l = anyShort g l := by
+  induction l with
+  | nil => rfl
+  | cons x xs ih =>
+    simp only [anyShort, h x List.mem_cons_self]
+    rw [ih (fun y hy => h y (List.mem_cons_of_mem _ hy))]
+
+theorem svz_null {v : JsVal} (h : primConst v = true) : sameValueZeroPrim v .null = (match v with | .null => true | _ => false) := by
+  cases v <;> simp [sameValueZeroPrim, strictEqPrim, primConst] at h ⊢
+
+theorem svz_undef {v : JsVal} (h : primConst v = true) : sameValueZeroPrim v .undef = false := by
+  cases v <;> simp [sameValueZeroPrim, strictEqPrim, primConst] at h ⊢
+
+/-- on the fragment the validator does not tell `undefined` from `null` (S1) -/
+theorem validate_null_undef (env : Env) : ∀ n seen rt, frag env n seen rt = true →
+    ∀ m strict, validate env strict m rt .undef = validate env strict m rt .null := by
+  intro n
+  induction n with
+  | zero => intro seen rt h; simp [frag] at h
+  | succ n ih =>
+    intro seen rt h m strict
+    cases m with
+    | zero => rfl
+    | succ m =>
+      cases rt with
+      | described d t => simp only [frag] at h; simp only [validate]; exact ih seen t h m strict
+      | typeof t =>
+        simp only [frag, Bool.or_eq_true, beq_iff_eq] at h
+        rcases h with (h | h) | h <;> subst h <;> simp [validate, JsVal.typeOf]
+      | any => simp [validate]
+      | nullish _ => simp [validate, JsVal.isNullish]
+      | never => simp [validate]
+      | const v =>
+        simp only [frag, Bool.or_eq_true] at h
+        simp only [validate]
+        cases hv : v.isNullish with
+        | true => simp [JsVal.isNullish]
+        | false =>
+          have hp : primConst v = true := by rcases h with h | h; exact h; rw [hv] at h; cases h
+          cases v <;> simp [primConst, JsVal.isNullish, strictEqPrim] at hp hv ⊢
+      | consts vs =>
+        simp only [frag, List.all_eq_true] at h
+        simp only [validate, JsVal.isNullish, Bool.true_and]
+        have e1 : vs.any (fun v => sameValueZeroPrim v .undef) = false := by
+          rw [List.any_eq_false]; intro v hv; simp [svz_undef (h v hv)]
+        rw [e1]
+        cases hB : vs.any (fun v => sameValueZeroPrim v .null) with
+        | false => rfl
+        | true =>
+          rw [List.any_eq_true] at hB
+          obtain ⟨v, hv, hs⟩ := hB
+          have hnull : v = .null := by
+            have := svz_null (h v hv)
+            rw [hs] at this
+            cases v <;> simp at this ⊢
+          subst hnull
+          congr 1
+          simp only [Bool.or_false, Bool.or_true]
+          rw [List.any_eq_true]
+          exact ⟨.null, hv, rfl⟩
+      | array t => simp [validate]
+      | tuple pre rest => simp [validate]
+      | anyOf ts =>
+        simp only [frag, List.all_eq_true] at h
+        simp only [validate]
+        exact anyShort_congr (fun t ht => ih seen t (h t ht) m strict)
+      | optional t => simp [validate, JsVal.isNullish]
+      | object props ix => simp [validate, JsVal.isObjectLike, JsVal.typeOf]
+      | ref name =>
+        simp only [frag, Bool.and_eq_true] at h
+        simp only [validate]
+        cases hl : env.lookup name with
+        | none => rfl
+        | some t =>
+          rw [hl] at h
+          exact ih (name :: seen) t h.2 m strict
+      | _ => simp [frag] at h
+
+/-! ### what the soundness proof needs to know about an emitted schema -/
+
+structure GoodS (P : Params) (s : JsVal) : Prop where
+  pure : ∀ j, pureS j s = true
+  nulls : isNullDef s = true → nullSimple s = true
+  atNull : ∃ k b, valid P k s .null = some b
+
+theorem lookup_fold_other (L : List (String × JsVal)) (init : List (String × JsVal)) (k : String)
+    (h : ∀ kv ∈ L, kv.1 ≠ k) :
+    lookupProp (L.foldl (fun acc kv => setProp acc kv.1 kv.2) init) k = lookupProp init k := by
+  induction L generalizing init with
+  | nil => rfl
+  | cons kv L ih =>
+    simp only [List.foldl]
+    rw [ih _ (fun x hx => h x (List.mem_cons_of_mem _ hx)), lookup_setProp]
+    have : k ≠ kv.1 := fun e => h kv List.mem_cons_self e.symm
+    simp [this]
+
+theorem lookup_jobj_none (L : List (String × JsVal)) (k : String) (h : ∀ kv ∈ L, kv.1 ≠ k) :
+    lookupProp (L.foldl (fun acc kv => setProp acc kv.1 kv.2) []) k = none := by
+  rw [lookup_fold_other L [] k h]; rfl
+
+theorem pureS_no_anyOf {kvs : List (String × JsVal)} (h1 : lookupProp kvs "anyOf" = none) (h2 : lookupProp kvs "oneOf" = none) :
+    ∀ j, pureS j (.obj kvs) = true := by
+  intro j; cases j with
+  | zero => rfl
+  | succ j => simp [pureS, h1, h2]
+
+theorem isNullDef_annotate (desc : Option String) (s : JsVal) : isNullDef (annotate desc s) = isNullDef s := by
+  cases desc with
+  | none => rfl
+  | some d =>
+    cases s <;> try rfl
+    simp only [annotate, isNullDef, lookup_setProp]
+    simp
+
+theorem ne_description_of_mem_vkeys {k : String} (hk : k ∈ vkeys) : k ≠ "description" := by
+  intro e; subst e; simp [vkeys] at hk
+
+theorem all_congr_mem {α : Type} {l : List α} {f g : α → Bool} (h : ∀ x ∈ l, f x = g x) : l.all f = l.all g := by
+  induction l with
+  | nil => rfl
+  | cons x xs ih =>
+    simp only [List.all_cons, h x List.mem_cons_self]
+    rw [ih (fun y hy => h y (List.mem_cons_of_mem _ hy))]
+
+theorem nullSimple_annotate (desc : Option String) (s : JsVal) : nullSimple (annotate desc s) = nullSimple s := by
+  cases desc with
+  | none => rfl
+  | some d =>
+    cases s <;> try rfl
+    rename_i kvs
+    simp only [annotate, nullSimple]
+    apply all_congr_mem
+    intro k hk
+    rw [lookup_setProp]
+    have := ne_description_of_mem_vkeys (List.mem_filter.1 hk).1
+    simp [this]
+
+theorem pureS_annotate (desc : Option String) (s : JsVal) (j : Nat) : pureS j (annotate desc s) = pureS j s := by
+  cases desc with
+  | none => rfl
+  | some d =>
+    cases s <;> try rfl
+    rename_i kvs
+    cases j with
+    | zero => rfl
+    | succ j =>
+      have e : ∀ k ∈ vkeys, lookupProp (setProp kvs "description" (.str d)) k = lookupProp kvs k := by
+        intro k hk
+        rw [lookup_setProp]
+        simp [ne_description_of_mem_vkeys hk]
+      have ea := e "anyOf" (by simp [vkeys])
+      have eo := e "oneOf" (by simp [vkeys])
+      simp only [annotate, pureS, ea, eo]
+      cases lookupProp kvs "anyOf" with
+      | none => rfl
+      | some a =>
+        cases a <;> try rfl
+        simp only
+        congr 1
+        apply all_congr_mem
+        intro k hk
+        rw [e k (List.mem_filter.1 hk).1]
+
+theorem goodS_annotate {P : Params} {s : JsVal} (desc : Option String) (h : GoodS P s) : GoodS P (annotate desc s) :=
+  ⟨fun j => by rw [pureS_annotate]; exact h.pure j,
+   fun hn => by rw [isNullDef_annotate] at hn; rw [nullSimple_annotate]; exact h.nulls hn,
+   by obtain ⟨k, b, e⟩ := h.atNull; exact ⟨k, b, by rw [valid_annotate]; exact e⟩⟩
+
+theorem anyO_defined {α : Type} {l : List α} {f : α → Option Bool} (h : ∀ x ∈ l, ∃ b, f x = some b) :
+    ∃ b, anyO (l.map f) = some b := by
+  have e : l.map f = (l.map (fun x => (f x).getD false)).map some := by
+    rw [List.map_map]
+    apply List.map_congr_left
+    intro x hx
+    obtain ⟨b, hb⟩ := h x hx
+    simp [hb]
+  exact ⟨_, by rw [e, anyO_map_some]⟩
+
+/-! ### exact verdicts of the simple shapes, and verdicts at `null` -/
+
+theorem valid_type_eq (P : Params) (k : Nat) (t : String) (d : JsVal) :
+    valid P (k+1) (jobj [("type", .str t)]) d = some (typeOk t d) := by
+  rw [valid_jobj]
+  apply validG_type
+  intro key _
+  simp only [List.foldl]
+  rw [lookup_setProp, lookupProp_nil]
+
+theorem valid_never_eq (P : Params) (k : Nat) (d : JsVal) :
+    valid P (k+2) (jobj [("not", jobj [])]) d = some false := by
+  rw [valid_jobj]
+  simp only [List.foldl]
+  generalize hg : lookupProp (setProp [] "not" (jobj [])) = get
+  have g1 : ∀ k', get k' = if k' = "not" then some (jobj []) else none := by
+    intro k'; rw [← hg, lookup_setProp, lookupProp_nil]
+  simp only [validG, cType, cConst, cEnum, cAny, cOne, cAll, cNot, cRef, cPattern, cFormat, cObj, cArr, declaredOf, prefixOf, g1]
+  simp [valid_empty']
+  cases d <;> simp [allO, andO]
+
+theorem valid_const_eq (P : Params) (k : Nat) (c d : JsVal) :
+    valid P (k+1) (jobj [("const", c)]) d = some (jsonEq 50 c d) := by
+  rw [valid_jobj]
+  simp only [List.foldl]
+  generalize hg : lookupProp (setProp [] "const" c) = get
+  have g1 : ∀ k', get k' = if k' = "const" then some c else none := by
+    intro k'; rw [← hg, lookup_setProp, lookupProp_nil]
+  simp only [validG, cType, cConst, cEnum, cAny, cOne, cAll, cNot, cRef, cPattern, cFormat, cObj, cArr, declaredOf, prefixOf, g1]
+  simp
+  cases d <;> simp [allO, andO]
+
+theorem valid_enum_eq (P : Params) (k : Nat) (vs : List JsVal) (d : JsVal) :
+    valid P (k+1) (jobj [("enum", .arr vs)]) d = some (vs.any (fun c => jsonEq 50 c d)) := by
+  rw [valid_jobj]
+  simp only [List.foldl]
+  generalize hg : lookupProp (setProp [] "enum" (.arr vs)) = get
+  have g1 : ∀ k', get k' = if k' = "enum" then some (.arr vs) else none := by
+    intro k'; rw [← hg, lookup_setProp, lookupProp_nil]
+  simp only [validG, cType, cConst, cEnum, cAny, cOne, cAll, cNot, cRef, cPattern, cFormat, cObj, cArr, declaredOf, prefixOf, g1]
+  simp
+  cases d <;> simp [allO, andO]
+
+theorem valid_type_enum_eq (P : Params) (k : Nat) (tp : String) (vs : List JsVal) (d : JsVal) :
+    valid P (k+1) (jobj [("type", .str tp), ("enum", .arr vs)]) d = some (typeOk tp d && vs.any (fun c => jsonEq 50 c d)) := by
+  rw [valid_jobj]
+  simp only [List.foldl]
+  generalize hg : lookupProp (setProp (setProp [] "type" (.str tp)) "enum" (.arr vs)) = get
+  have g1 : ∀ k', get k' = if k' = "enum" then some (.arr vs) else if k' = "type" then some (.str tp) else none := by
+    intro k'; rw [← hg, lookup_setProp, lookup_setProp, lookupProp_nil]
+  simp only [validG, cType, cConst, cEnum, cAny, cOne, cAll, cNot, cRef, cPattern, cFormat, cObj, cArr, declaredOf, prefixOf, g1]
+  simp
+  cases d <;> simp [allO, andO]
+
+/-- a schema with a `type` other than "null" and none of the value keywords rejects `null` -/
+theorem validG_typed_at_null {P : Params} {v : JsVal → JsVal → Option Bool} {get : String → Option JsVal} {t : String}
+    (ht : get "type" = some (.str t)) (hn : t ≠ "null")
+    (h : ∀ k ∈ ["const", "enum", "anyOf", "oneOf", "allOf", "not", "$ref", "format"], get k = none) :
+    validG P v get .null = some false := by
+  have h1 := h "const" (by simp)
+  have h2 := h "enum" (by simp)
+  have h3 := h "anyOf" (by simp)
+  have h4 := h "oneOf" (by simp)
+  have h5 := h "allOf" (by simp)
+  have h6 := h "not" (by simp)
+  have h7 := h "$ref" (by simp)
+  have h8 := h "format" (by simp)
+  simp only [validG, cType, cConst, cEnum, cAny, cOne, cAll, cNot, cRef, cPattern, cFormat, cObj, cArr, ht, h1, h2, h3, h4, h5, h6, h7, h8]
+  have : typeOk t .null = false := by
+    unfold typeOk
+    split <;> simp_all
+  rw [this]
+  simp [allO, andO]
+
+/-! ### every shape of the printer is a good schema -/
+
+theorem isNullDef_of_type {kvs : List (String × JsVal)} {t : String} (h : lookupProp kvs "type" = some (.str t)) (hn : t ≠ "null") :
+    isNullDef (.obj kvs) = false := by
+  simp only [isNullDef, h]
+  split
+  · rename_i heq; simp only [Option.some.injEq, JsVal.str.injEq] at heq; exact absurd heq hn
+  · rfl
+
+theorem isNullDef_no_type {kvs : List (String × JsVal)} (h : lookupProp kvs "type" = none) : isNullDef (.obj kvs) = false := by
+  simp [isNullDef, h]
+
+/-- a schema with a `type` that is not "null" and no value keyword -/
+theorem goodS_typed {P : Params} {kvs : List (String × JsVal)} {t : String} (ht : lookupProp kvs "type" = some (.str t)) (hn : t ≠ "null")
+    (h : ∀ k ∈ ["const", "enum", "anyOf", "oneOf", "allOf", "not", "$ref", "format"], lookupProp kvs k = none) : GoodS P (.obj kvs) :=
+  { pure := pureS_no_anyOf (h "anyOf" (by simp)) (h "oneOf" (by simp))
+    nulls := fun hd => by rw [isNullDef_of_type ht hn] at hd; cases hd
+    atNull := ⟨1, false, validG_typed_at_null ht hn h⟩ }
+
+theorem jobj_eq (L : List (String × JsVal)) : jobj L = .obj (L.foldl (fun acc kv => setProp acc kv.1 kv.2) []) := rfl
+
+theorem goodS_type (P : Params) (t : String) : GoodS P (jobj [("type", .str t)]) := by
+  refine { pure := ?_, nulls := ?_, atNull := ⟨1, _, valid_type_eq P 0 t .null⟩ }
+  · rw [jobj_eq]; simp only [List.foldl]
+    exact pureS_no_anyOf (by simp [lookup_setProp, lookupProp_nil]) (by simp [lookup_setProp, lookupProp_nil])
+  · intro _
+    rw [jobj_eq]; simp only [List.foldl]
+    simp only [nullSimple, List.all_eq_true]
+    intro k hk
+    have : k ≠ "type" := by simpa using (List.mem_filter.1 hk).2
+    simp [lookup_setProp, lookupProp_nil, this]
+
+theorem goodS_empty (P : Params) : GoodS P (jobj []) :=
+  { pure := pureS_no_anyOf rfl rfl
+    nulls := fun hd => by simp [jobj, isNullDef, lookupProp_nil] at hd
+    atNull := ⟨1, _, valid_empty' P 0 .null⟩ }
+
+theorem goodS_never (P : Params) : GoodS P (jobj [("not", jobj [])]) := by
+  refine { pure := ?_, nulls := ?_, atNull := ⟨2, _, valid_never_eq P 0 .null⟩ }
+  · rw [jobj_eq]; simp only [List.foldl]
+    exact pureS_no_anyOf (by simp [lookup_setProp, lookupProp_nil]) (by simp [lookup_setProp, lookupProp_nil])
+  · intro hd
+    rw [jobj_eq] at hd; simp only [List.foldl] at hd
+    rw [isNullDef_no_type (by simp [lookup_setProp, lookupProp_nil])] at hd
+    cases hd
+
+theorem goodS_const (P : Params) (c : JsVal) : GoodS P (jobj [("const", c)]) := by
+  refine { pure := ?_, nulls := ?_, atNull := ⟨1, _, valid_const_eq P 0 c .null⟩ }
+  · rw [jobj_eq]; simp only [List.foldl]
+    exact pureS_no_anyOf (by simp [lookup_setProp, lookupProp_nil]) (by simp [lookup_setProp, lookupProp_nil])
+  · intro hd
+    rw [jobj_eq] at hd; simp only [List.foldl] at hd
+    rw [isNullDef_no_type (by simp [lookup_setProp, lookupProp_nil])] at hd
+    cases hd
+
+theorem goodS_enum (P : Params) (vs : List JsVal) : GoodS P (jobj [("enum", .arr vs)]) := by
+  refine { pure := ?_, nulls := ?_, atNull := ⟨1, _, valid_enum_eq P 0 vs .null⟩ }
+  · rw [jobj_eq]; simp only [List.foldl]
+    exact pureS_no_anyOf (by simp [lookup_setProp, lookupProp_nil]) (by simp [lookup_setProp, lookupProp_nil])
+  · intro hd
+    rw [jobj_eq] at hd; simp only [List.foldl] at hd
+    rw [isNullDef_no_type (by simp [lookup_setProp, lookupProp_nil])] at hd
+    cases hd
+
+theorem goodS_type_enum (P : Params) (tp : String) (htp : tp ≠ "null") (vs : List JsVal) :
+    GoodS P (jobj [("type", .str tp), ("enum", .arr vs)]) := by
+  refine { pure := ?_, nulls := ?_, atNull := ⟨1, _, valid_type_enum_eq P 0 tp vs .null⟩ }
+  · rw [jobj_eq]; simp only [List.foldl]
+    exact pureS_no_anyOf (by simp [lookup_setProp, lookupProp_nil]) (by simp [lookup_setProp, lookupProp_nil])
+  · intro hd
+    rw [jobj_eq] at hd; simp only [List.foldl] at hd
+    rw [isNullDef_of_type (t := tp) (by simp [lookup_setProp, lookupProp_nil]) htp] at hd
+    cases hd
+
+theorem goodS_anyOf {P : Params} {ss : List JsVal} (h : ∀ s ∈ ss, GoodS P s) : GoodS P (jobj [("anyOf", .arr ss)]) := by
+  have hl : ∀ k, lookupProp (setProp [] "anyOf" (JsVal.arr ss)) k = if k = "anyOf" then some (.arr ss) else none := by
+    intro k; rw [lookup_setProp, lookupProp_nil]
+  refine { pure := ?_, nulls := ?_, atNull := ?_ }
+  · intro j
+    cases j with
+    | zero => rfl
+    | succ j =>
+      rw [jobj_eq]; simp only [List.foldl]
+      simp only [pureS, hl, if_true, Bool.and_eq_true, List.all_eq_true]
+      refine ⟨?_, ?_⟩
+      · intro k hk
+        have : k ≠ "anyOf" := by simpa using (List.mem_filter.1 hk).2
+        simp [this]
+      · intro v hv
+        cases hn : isNullDef v with
+        | true => simpa using (h v hv).nulls hn
+        | false => simpa using (h v hv).pure j
+  · intro hd
+    rw [jobj_eq] at hd; simp only [List.foldl] at hd
+    rw [isNullDef_no_type (by rw [hl]; simp)] at hd
+    cases hd
+  · obtain ⟨K, _, hK⟩ := common_fuel P .null (fun _ _ => True) ss (fun v hv => by
+      obtain ⟨k, b, e⟩ := (h v hv).atNull; exact ⟨k, b, e, trivial⟩)
+    obtain ⟨b, hb⟩ := anyO_defined (l := ss) (f := fun s => valid P K s .null) (fun x hx => by
+      obtain ⟨b, e, _⟩ := hK x hx; exact ⟨b, e⟩)
+    exact ⟨K + 1, b, by rw [valid_anyOf_eq]; exact hb⟩
+
+/-! ### the property loop -/
+
+theorem propsS_spec (go : RT → SCtx → SRes JsVal) :
+    ∀ (props : List (String × RT)) (ps0 : List (String × JsVal)) (opt0 : List String) (c : SCtx)
+      (ps : List (String × JsVal)) (opt : List String) (c1 : SCtx),
+      propsS go props (ps0, opt0) c = .ok (ps, opt) c1 → nodupB (props.map (·.1)) = true →
+      (∀ p ∈ props, ∃ raw c' c'', go p.2 c' = .ok raw c'' ∧
+          lookupProp ps p.1 = some ((removeNullUnionBranch 50 raw).getD raw) ∧
+          (p.1 ∈ opt → p.1 ∈ opt0 ∨ (removeNullUnionBranch 50 raw).isSome = true ∨ isOptionalRT p.2 = true)) ∧
+      (∀ k, k ∉ props.map (·.1) → lookupProp ps k = lookupProp ps0 k) ∧
+      (∀ k ∈ opt, k ∈ opt0 ∨ k ∈ props.map (·.1)) := by
+  intro props
+  induction props with
+  | nil =>
+    intro ps0 opt0 c ps opt c1 h _
+    simp only [propsS, SRes.ok.injEq, Prod.mk.injEq] at h
+    obtain ⟨⟨rfl, rfl⟩, _⟩ := h
+    exact ⟨by simp, fun _ _ => rfl, fun k hk => Or.inl hk⟩
+  | cons p rest ih =>
+    intro ps0 opt0 c ps opt c1 h hnd
+    simp only [List.map_cons, nodupB, Bool.and_eq_true, Bool.not_eq_true', List.contains_eq_mem, decide_eq_false_iff_not] at hnd
+    obtain ⟨hp_notin, hnd'⟩ := hnd
+    simp only [propsS] at h
+    cases hg : go p.2 c with
+    | throw e => rw [hg] at h; cases h
+    | nofuel => rw [hg] at h; cases h
+    | ok raw c' =>
+      rw [hg] at h
+      simp only at h
+      -- the two branches differ in what is stored and in the list of optional names
+      have key : ∀ (stored : JsVal) (opt0' : List String),
+          propsS go rest (setProp ps0 p.1 stored, opt0') c' = .ok (ps, opt) c1 →
+          stored = (removeNullUnionBranch 50 raw).getD raw →
+          (∀ k ∈ opt0', k ∈ opt0 ∨ (k = p.1 ∧ ((removeNullUnionBranch 50 raw).isSome = true ∨ isOptionalRT p.2 = true))) →
+          (∀ q ∈ p :: rest, ∃ raw c' c'', go q.2 c' = .ok raw c'' ∧
+              lookupProp ps q.1 = some ((removeNullUnionBranch 50 raw).getD raw) ∧
+              (q.1 ∈ opt → q.1 ∈ opt0 ∨ (removeNullUnionBranch 50 raw).isSome = true ∨ isOptionalRT q.2 = true)) ∧
+          (∀ k, k ∉ (p :: rest).map (·.1) → lookupProp ps k = lookupProp ps0 k) ∧
+          (∀ k ∈ opt, k ∈ opt0 ∨ k ∈ (p :: rest).map (·.1)) := by
+        intro stored opt0' hrest hstored hopt
+        obtain ⟨i1, i2, i3⟩ := ih _ _ _ _ _ _ hrest hnd'
+        refine ⟨?_, ?_, ?_⟩
+        · intro q hq
+          rcases List.mem_cons.1 hq with rfl | hq
+          · refine ⟨raw, c, c', hg, ?_, ?_⟩
+            · rw [i2 _ hp_notin, lookup_setProp]; simp [hstored]
+            · intro ho
+              rcases i3 _ ho with h1 | h1
+              · rcases hopt _ h1 with h2 | ⟨_, h2⟩
+                · exact Or.inl h2
+                · exact Or.inr h2
+              · exact absurd h1 hp_notin
+          · obtain ⟨raw', d', d'', e1, e2, e3⟩ := i1 q hq
+            refine ⟨raw', d', d'', e1, e2, ?_⟩
+            intro ho
+            rcases e3 ho with h1 | h1
+            · rcases hopt _ h1 with h2 | ⟨h2, _⟩
+              · exact Or.inl h2
+              · exfalso; apply hp_notin; rw [← h2]; exact List.mem_map.2 ⟨q, hq, rfl⟩
+            · exact Or.inr h1
+        · intro k hk
+          simp only [List.map_cons, List.mem_cons, not_or] at hk
+          rw [i2 k hk.2, lookup_setProp]; simp [hk.1]
+        · intro k hk
+          rcases i3 k hk with h1 | h1
+          · rcases hopt k h1 with h2 | ⟨h2, _⟩
+            · exact Or.inl h2
+            · right; simp [h2]
+          · right; simp only [List.map_cons, List.mem_cons]; exact Or.inr h1
+      cases hr : removeNullUnionBranch 50 raw with
+      | some rw =>
+        rw [hr] at h
+        refine key rw (opt0 ++ [p.1]) h (by simp [hr]) ?_
+        intro k hk
+        rcases List.mem_append.1 hk with h1 | h1
+        · exact Or.inl h1
+        · right; exact ⟨by simpa using h1, Or.inl (by rw [hr]; rfl)⟩
+      | none =>
+        rw [hr] at h
+        refine key raw _ h (by simp [hr]) ?_
+        intro k hk
+        by_cases ho : isOptionalRT p.2 = true
+        · rw [if_pos ho] at hk
+          rcases List.mem_append.1 hk with h1 | h1
+          · exact Or.inl h1
+          · right; exact ⟨by simpa using h1, Or.inr ho⟩
+        · rw [if_neg ho] at hk; exact Or.inl hk
+
+/-! ### the validator side -/
+
+theorem acc_nofuel : Acc (.nofuel : Res Bool) := Or.inr rfl
+theorem acc_true : Acc (.ok true : Res Bool) := Or.inl rfl
+
+theorem allShort_acc {α : Type} {f : α → Res Bool} {l : List α} (h : ∀ x ∈ l, Acc (f x)) : Acc (allShort f l) := by
+  induction l with
+  | nil => exact acc_true
+  | cons x xs ih =>
+    simp only [allShort]
+    rcases h x List.mem_cons_self with e | e
+    · rw [e]; exact ih (fun y hy => h y (List.mem_cons_of_mem _ hy))
+    · rw [e]; exact acc_nofuel
+
+theorem allShort_nt {α : Type} {f : α → Res Bool} {l : List α} (h : ∀ x ∈ l, ∀ c, f x ≠ .throw c) : ∀ c, allShort f l ≠ .throw c := by
+  induction l with
+  | nil => intro c e; simp [allShort] at e
+  | cons x xs ih =>
+    intro c
+    simp only [allShort]
+    cases hx : f x with
+    | ok b => cases b <;> simp [ih (fun y hy => h y (List.mem_cons_of_mem _ hy)) c]
+    | throw c' => exact absurd hx (h x List.mem_cons_self c')
+    | nofuel => simp
+
+theorem anyShort_nt {α : Type} {f : α → Res Bool} {l : List α} (h : ∀ x ∈ l, ∀ c, f x ≠ .throw c) : ∀ c, anyShort f l ≠ .throw c := by
+  induction l with
+  | nil => intro c e; simp [anyShort] at e
+  | cons x xs ih =>
+    intro c
+    simp only [anyShort]
+    cases hx : f x with
+    | ok b => cases b <;> simp [ih (fun y hy => h y (List.mem_cons_of_mem _ hy)) c]
+    | throw c' => exact absurd hx (h x List.mem_cons_self c')
+    | nofuel => simp
+
+theorem anyShort_acc {α : Type} {f : α → Res Bool} {l : List α} (h : ∃ x ∈ l, Acc (f x)) (hnt : ∀ x ∈ l, ∀ c, f x ≠ .throw c) :
+    Acc (anyShort f l) := by
+  induction l with
+  | nil => obtain ⟨x, hx, _⟩ := h; cases hx
+  | cons x xs ih =>
+    simp only [anyShort]
+    cases hx : f x with
+    | ok b =>
+      cases b with
+      | true => exact acc_true
+      | false =>
+        simp only
+        obtain ⟨y, hy, hacc⟩ := h
+        rcases List.mem_cons.1 hy with rfl | hy
+        · rw [hx] at hacc; rcases hacc with e | e <;> cases e
+        · exact ih ⟨y, hy, hacc⟩ (fun z hz => hnt z (List.mem_cons_of_mem _ hz))
+    | throw c' => exact absurd hx (hnt x List.mem_cons_self c')
+    | nofuel => exact acc_nofuel
+
+/-- what the theorem says about a runtype and its schema -/
+structure Good (P : Params) (env : Env) (rt : RT) (s : JsVal) : Prop where
+  gs : GoodS P s
+  nt : ∀ m strict d c, validate env strict m rt d ≠ .throw c
+  sound : ∀ k d m strict, valid P k s d = some true → Acc (validate env strict m rt d)
+
+theorem good_annotate {P : Params} {env : Env} {rt : RT} {s : JsVal} (desc : Option String) (h : Good P env rt s) :
+    Good P env rt (annotate desc s) :=
+  { gs := goodS_annotate desc h.gs
+    nt := h.nt
+    sound := fun k d m strict hv => h.sound k d m strict (by rw [valid_annotate] at hv; exact hv) }
+
+theorem good_wrap {P : Params} {env : Env} {rt rt' : RT} {s : JsVal} (h : Good P env rt s)
+    (hv : ∀ m strict d, validate env strict (m+1) rt' d = validate env strict m rt d) : Good P env rt' s :=
+  { gs := h.gs
+    nt := fun m strict d c => by
+      cases m with
+      | zero => simp [validate]
+      | succ m => rw [hv]; exact h.nt m strict d c
+    sound := fun k d m strict hk => by
+      cases m with
+      | zero => exact acc_nofuel
+      | succ m => rw [hv]; exact h.sound k d m strict hk }
+
+theorem valid_zero_ne (P : Params) (s d : JsVal) : valid P 0 s d ≠ some true := by simp [valid]
+
+/-- a leaf: the validator answers without recursion -/
+theorem good_leaf {P : Params} {env : Env} {rt : RT} {s : JsVal} (gs : GoodS P s)
+    (f : JsVal → Bool) (hv : ∀ m strict d, validate env strict (m+1) rt d = .ok (f d))
+    (hs : ∀ k d, valid P (k+1) s d = some true → f d = true) : Good P env rt s :=
+  { gs := gs
+    nt := fun m strict d c => by
+      cases m with
+      | zero => simp [validate]
+      | succ m => rw [hv]; simp
+    sound := fun k d m strict hk => by
+      cases m with
+      | zero => exact acc_nofuel
+      | succ m =>
+        cases k with
+        | zero => exact absurd hk (valid_zero_ne P s d)
+        | succ k => rw [hv, hs k d hk]; exact acc_true }
+
+/-! ### constants -/
+
+theorem numSVZ_strict {a b : String} (ha : a ≠ "NaN") (h : numSameValueZero a b = true) : numStrictEq b a = true := by
+  unfold numSameValueZero at h
+  unfold numStrictEq
+  have hb : b ≠ "NaN" := by
+    intro e; subst e
+    by_cases h0 : a = "-0"
+    · subst h0; simp at h
+    · simp [h0] at h; exact ha h
+  have e1 : (b == "NaN") = false := by simpa using hb
+  have e2 : (a == "NaN") = false := by simpa using ha
+  rw [e1, e2]
+  simp only [Bool.or_self, Bool.false_eq_true, if_false]
+  simp only [beq_iff_eq] at h ⊢
+  exact h.symm
+
+theorem jsonEq_svz {c d : JsVal} (hc : primConst c = true) (h : jsonEq 50 c d = true) : sameValueZeroPrim c d = true := by
+  cases c <;> simp [primConst] at hc <;> cases d <;> simp [jsonEq, sameValueZeroPrim, strictEqPrim] at h ⊢ <;> exact h
+
+theorem jsonEq_strict {v d : JsVal} (hc : primConst v = true) (hn : v.isNullish = false) (h : jsonEq 50 v d = true) :
+    strictEqPrim d v = true := by
+  cases v <;> simp [primConst, JsVal.isNullish] at hc hn <;> cases d <;> simp [jsonEq, strictEqPrim] at h ⊢
+  · exact h.symm
+  · rename_i a b; exact numSVZ_strict (by simpa using hc) h
+  · exact h.symm
+
+theorem jsonEq_null {d : JsVal} (h : jsonEq 50 .null d = true) : d.isNullish = true := by
+  cases d <;> simp [jsonEq, JsVal.isNullish] at h ⊢
+
+/-! ### sequences of children -/
+
+theorem seqS_spec (go : RT → SCtx → SRes JsVal) : ∀ (ts : List RT) (c : SCtx) (ss : List JsVal) (c1 : SCtx),
+    seqS go ts c = .ok ss c1 → ss.length = ts.length ∧ ∀ p ∈ ts.zip ss, ∃ c' c'', go p.1 c' = .ok p.2 c'' := by
+  intro ts
+  induction ts with
+  | nil =>
+    intro c ss c1 h
+    simp only [seqS, SRes.ok.injEq] at h
+    obtain ⟨rfl, _⟩ := h
+    exact ⟨rfl, by simp⟩
+  | cons t ts ih =>
+    intro c ss c1 h
+    simp only [seqS] at h
+    cases hg : go t c with
+    | throw e => rw [hg] at h; cases h
+    | nofuel => rw [hg] at h; cases h
+    | ok s c' =>
+      rw [hg] at h
+      simp only at h
+      cases hr : seqS go ts c' with
+      | throw e => rw [hr] at h; cases h
+      | nofuel => rw [hr] at h; cases h
+      | ok ss' c'' =>
+        rw [hr] at h
+        simp only [SRes.ok.injEq] at h
+        obtain ⟨rfl, _⟩ := h
+        obtain ⟨hl, hz⟩ := ih c' ss' c'' hr
+        refine ⟨by simp [hl], ?_⟩
+        intro p hp
+        simp only [List.zip_cons_cons, List.mem_cons] at hp
+        rcases hp with rfl | hp
+        · exact ⟨c, c', hg⟩
+        · exact hz p hp
+
+theorem exists_left_of_mem_zip_right {α β : Type} {l : List α} {r : List β} (hl : r.length = l.length) {y : β} (hy : y ∈ r) :
+    ∃ x, (x, y) ∈ l.zip r := by
+  obtain ⟨i, hi, e⟩ := List.mem_iff_getElem.1 hy
+  have hi' : i < l.length := hl ▸ hi
+  refine ⟨l[i], ?_⟩
+  rw [List.mem_iff_getElem]
+  refine ⟨i, by rw [List.length_zip]; omega, ?_⟩
+  simp [e]
+
 end BeffVerif.C02F
